@@ -23,6 +23,7 @@ EXPLANATION = (
     "every choice of which degrees are zero to a rational-function normal form (np.where picks its branch, a zero divisor is NaN, the value of a "
     "term at degree 0 may be infinite) and compared with sum(w*z)/sum(w) resp. sum(w*z) over the non-zero degrees, NaN when there is none (W-sem); "
     "infer_type's decision table by path-sensitive abstract interpretation"
+    "; P10 - Aggregated.activation_degree(term) is the grouped degree of the term of that name; tests on symbolic degrees are explored per zero pattern"
 )
 ASSUMPTIONS = [
     "parameter classes from the property's preconditions: height in (0,1], slopes non-zero, other parameters finite",
